@@ -19,7 +19,8 @@ SEED = int(opt("--seed", "1"))
 AM = "/tmp/am"
 R, V = AM + "/repo", AM + "/verif"
 ALLF = "batteries_included v1_local v2_local v3_local v4_local v1_public v2_public v3_public v4_public"
-CHECKS = ["C%02d" % i for i in range(1, 19)] + ["C19"]
+# cheapest / most often killing first: the sweep stops at the first check that reports the mutant
+CHECKS = ["C01", "C02", "C08", "C05", "C06", "C03", "C14", "C13", "C15", "C16", "C11", "C12", "C17", "C18", "C04", "C07", "C09", "C10", "C19"]
 
 
 def sh(cmd, cwd=None, timeout=3600, env=None):
@@ -104,7 +105,7 @@ def mutants_of_line(line):
         if is_s:
             # string literal: change one character in the middle (domain separation strings, headers, claim keys)
             inner = p[1:-1]
-            if 2 <= len(inner) <= 40 and "{" not in inner and "\\" not in inner:
+            if 2 <= len(inner) <= 40 and "{" not in inner and "\\" not in inner and "expect(" not in line and "#[error" not in line and "panic!" not in line:
                 k = len(inner) // 2
                 ch = "x" if inner[k] != "x" else "y"
                 res.append(("string-char", rebuild(idx, '"' + inner[:k] + ch + inner[k + 1:] + '"')))
@@ -231,6 +232,7 @@ def main():
                     rc, out = sh("./check %s quick" % c, cwd=V, env=env_checks, timeout=1800)
                     if rc == 1:
                         killed.append(c)
+                        break
                     elif rc != 0:
                         exit2.append(c)
                 rec["status"] = "killed" if killed else "SURVIVED"
